@@ -17,7 +17,7 @@ def gen_world(rng, pid):
         inner_fields.append(["d2", "scalar", "Int32", {"factory": 7}])
         if rng.random() < 0.5: inner_fields.append(["w", "array", "Float64", [3]])
     inner = {"fields": inner_fields}
-    if rng.random() < 0.4: inner["rename"] = {"a": "alpha"}
+    if rng.random() < (0.7 if pid == "C19" else 0.4): inner["rename"] = {"a": "alpha"}
     classes = {"Inner": inner}; order = ["Inner"]
     if pid == "C19" and rng.random() < 0.6:
         # a subclass that re-declares the fields with other declared defaults
@@ -33,6 +33,9 @@ def gen_world(rng, pid):
         classes["Mid"] = {"fields": [["ri", "ref", "Inner"], ["k", "scalar", "Int64"]]}; order.append("Mid")
     outer_fields = [["inner", "nested", "Inner"], ["inner2", "nested", "Inner"], ["s", "scalar", "Float64"], ["v", "array", "Float64", [None]], ["n", "scalar", "Int32"]]
     if with_refs and ("Mid" not in classes or rng.random() < 0.5): outer_fields.insert(2, ["r", "ref", "Inner"])     # sometimes references only inside a nested class
+    if "Mid" not in classes and rng.random() < (0.6 if pid == "C19" else 0.3):
+        # a middle level that renames nothing, holding a class that does
+        classes["Mid"] = {"fields": [["inn", "nested", "Inner"], ["k", "scalar", "Int64"]]}; order.append("Mid")
     if "Mid" in classes: outer_fields.append(["mid", "nested", "Mid"])
     rng.shuffle(outer_fields)
     outer = {"fields": outer_fields, "rename": {"inner2": "inner_renamed"}}
@@ -119,7 +122,7 @@ def gen_case(rng, nops, pid):
     holes = pid == "C20" and rng.random() < 0.6
     if holes: push({"op": "raw_alloc", "buf": "B0", "size": rng.choice([8, 24, 40]), "name": "h0"})
     new("i1", "Inner", rng.choice(["B0", "B1", "B2"]))
-    new("o", "Outer", "B0")
+    new("o", "Outer", rng.choice(["B0", "B0", "Nown_o"]))      # N..: a buffer of its own (the object sits at offset 0)
     if "InnerD" in world["classes"]:
         new("e0", "InnerD", "B0"); new("e1", "InnerD", "B0")
     if holes:
@@ -210,7 +213,7 @@ def gen_case(rng, nops, pid):
             via = []
             if o["cls"] == "Outer" and rng.random() < 0.35:
                 via = ["inner"]
-            buf = rng.choice(["B1", "B2", "B0"])
+            buf = rng.choice(["B1", "B2", "B0", "Nmv%d" % k])      # N..: a fresh, empty buffer
             refused = bool(via) or (not o["movable"]) or has_refs(world, o["cls"])
             if not refused:
                 o["buf"] = buf
@@ -392,7 +395,15 @@ def run(ctx):
         for sig, what, k in judge_case(pid, c, r):
             if sig not in bysig or k < bysig[sig][2]:
                 bysig[sig] = (i, what, k)
+    nplain = 0
+    if pid == "C20":
+        extra, nplain = plain_pickles(ctx, rng, 150 if ctx.tier == "quick" else 3000)
+    else:
+        extra = []
     found = False
+    for sig, what, rep in extra:
+        found = True
+        report(ctx, sig, what, rep)
     for sig, tup in sorted(bysig.items()):
         found = True
         if len(tup) == 4:
@@ -409,7 +420,7 @@ def run(ctx):
             nst += 1; hist["op:" + op["op"] + ("-" + op["kind"] if "kind" in op else "") + ("-refused" if op.get("refused") else "")] += 1
         hist["world:" + "+".join(c["world"]["order"]) + ("+refs" if any(f[1] == "ref" for f in c["world"]["classes"]["Outer"]["fields"]) else "")] += 1
     distinct = set(hashlib.sha1(json.dumps([c["world"], [{k: v for k, v in o.items() if k != "expect"} for o in c["ops"]]], sort_keys=True).encode()).hexdigest() for c in cases)
-    cov = dict(evaluations=nst + njson, distinct_nontrivial=len(distinct), histories=len(cases), json_roundtrips=njson,
+    cov = dict(evaluations=nst + njson + nplain, distinct_nontrivial=len(distinct), histories=len(cases), json_roundtrips=njson, plain_objects_pickled_and_judged_in_coq=nplain,
                rule="generated HybridClass definitions (scalars, strings, scalar arrays 1-D dynamic and 2-D static, nested hybrid classes, references to hybrid classes directly and inside a nested class, renamed fields, declared defaults / default factories) and histories of {construct, set scalar / string / whole array / array element at the top or through a nested dressed part, assign a dressed object to a plain field (copy) or to a reference field (share; refused across buffers), copy to same / other buffer / other context, move (refused for nested parts, non-movable and reference-bearing objects)%s}. After every step every attribute of every dressed object (recursively) is compared with the data of its _xobject and with the model's expectation; offsets and buffer identities of nested parts and referents are compared." % {"C18": "", "C19": ", to_dict -> from_dict", "C20": ", pickle.dumps/loads of groups of objects, then further writes on the restored objects"}[pid],
                samples=[{"world": cases[-1]["world"], "ops": [{k: v for k, v in o.items() if k != "expect"} for o in cases[-1]["ops"][:6]]}],
                distribution=dict(sorted(hist.items())), corpus_cases=len(corpus))
@@ -418,10 +429,77 @@ def run(ctx):
                                          "pickle's object-graph traversal (one copy per identity) is Python's behaviour: assumed (C20 partial)"])
 
 
+def plain_pickles(ctx, rng, n):
+    """plain (undressed) xobjects of generated types -- every axis order of 2-D / 3-D arrays with scalar or string
+    items, nested structs, strings -- are pickled and restored: the restored object must read as the original,
+    through its handle and through a fresh view, keep its offset and size, own separate storage, and its bytes
+    in the restored buffer must be the documented image of the value (layout_ok evaluated in Coq)."""
+    import c_layout as L, gen_types as G
+    cases = [dict(c, with_sibling=(i % 3 == 0)) for i, c in enumerate(L.systematic_cases(rng)) if c["form"] == "py"]
+    while len(cases) < n:
+        c = L.gen_case(rng, 3)
+        if c["type"]["k"] in ("string", "scalar"): continue
+        c = {"type": c["type"], "value": c["value"], "form": "py", "prep": c["prep"], "with_sibling": rng.random() < 0.3}
+        if "cap" in json.dumps(c["value"]): continue
+        cases.append(c)
+    sh = (len(cases) + 7) // 8
+    results = []
+    for r in run_impl_parallel(ctx, "pickle_plain", [{"cases": cases[i:i + sh]} for i in range(0, len(cases), sh)]):
+        results += r["results"]
+    bysig = {}
+    def note(sig, what, i):
+        if sig not in bysig or L.size_case(cases[i]) < L.size_case(cases[bysig[sig][0]]):
+            bysig[sig] = (i, what)
+    idx = []
+    for i, (c, r) in enumerate(zip(cases, results)):
+        st = L.sig_type(c["type"])
+        if r.get("stage") == "pickle":
+            note("C20/plain/pickling-raises-%s/%s" % (r["exc"], st), r.get("msg"), i); continue
+        if r.get("stage"):
+            continue
+        if "readback_exc" in r:
+            note("C20/plain/restored-object-read-raises-%s/%s" % (r["readback_exc"], st), r.get("readback_msg"), i); continue
+        if r["readback"] != r["orig_read"]:
+            note("C20/plain/restored-object-reads-differently/%s" % st, "the unpickled object does not read as the pickled one", i); continue
+        if "view_exc" in r or r.get("view_readback") != r["readback"]:
+            note("C20/plain/view-of-restored-object-differs/%s" % st, "a view rebuilt from the restored (buffer, offset) reads differently", i); continue
+        if r.get("caches") != r.get("orig_caches"):
+            note("C20/plain/restored-shape-strides-or-offsets-differ/%s" % st, "caches %s vs %s" % (json.dumps(r.get("caches"))[:150], json.dumps(r.get("orig_caches"))[:150]), i); continue
+        if r["off"] != r["orig_off"] or r["size"] != r["orig_size"]:
+            note("C20/plain/offset-or-size-changed/%s" % st, "offset %s size %s, before %s %s" % (r["off"], r["size"], r["orig_off"], r["orig_size"]), i); continue
+        if r["shares_storage_with_original"]:
+            note("C20/plain/restored-object-shares-storage-with-the-original", "same buffer object", i); continue
+        if r.get("sibling_same_buffer") is False:
+            note("C20/plain/objects-that-shared-a-buffer-no-longer-share", "two objects of one buffer pickled together", i); continue
+        idx.append(i)
+    SH = 60
+    files = [("cases_C20p_%d" % (j // SH), L.cases_file([(cases[i], results[i]) for i in idx[j:j + SH]])) for j in range(0, len(idx), SH)]
+    res = coq_eval_many(ctx, files)
+    out = []
+    for j in range(0, len(idx), SH):
+        rc, o = res["cases_C20p_%d" % (j // SH)]
+        pairs = parse_pairs(o) if rc == 0 else None
+        if pairs is None:
+            out.append(("C20/plain/cases-do-not-evaluate", "cases file does not evaluate", dict(kind="broken-tie", log=o[-1200:]))); continue
+        for a, code in pairs:
+            i = idx[j + a]
+            note("C20/plain/restored-bytes-not-the-documented-image/code%d/%s" % (code, L.sig_type(cases[i]["type"])), "layout_ok code %d on the restored buffer" % code, i)
+    for sig, (i, what) in sorted(bysig.items()):
+        out.append((sig, what, dict(kind="concrete", tie="K-PICKLE-plain", plain_case=cases[i], observed={k: v for k, v in results[i].items() if k != "after"},
+                                    how_to_replay="./check C20 --replay <this file>")))
+    return out, len(cases)
+
+
 def replay(ctx, path):
     r = json.load(open(path))
     if r.get("kind") != "concrete":
         print("nothing to execute:", r.get("what")); return 1
+    if "plain_case" in r:
+        res = run_impl(ctx, "pickle_plain", {"cases": [r["plain_case"]]})["results"][0]
+        print(json.dumps({k: v for k, v in res.items() if k != "after"})[:1500])
+        bad = res.get("stage") == "pickle" or "readback_exc" in res or res.get("readback") != res.get("orig_read") or res.get("caches") != res.get("orig_caches") or res.get("view_readback") != res.get("readback")
+        print("REPRODUCED" if bad else "not reproduced (byte-level judgement: run the check)")
+        return 1 if bad else 0
     c = r["case"]
     res = run_impl(ctx, "hybrid", {"cases": [c]})["results"][0]
     j = judge_case(ctx.pid, c, res)
